@@ -249,42 +249,17 @@ EXPECTED_INTERACTIONS = [
     ("no-unused-labels", None, None, "label contexts"),
 ]
 
-# Classes of failures that exist on the pinned tree and were proposed to the main engineer as `fix:` patches
-# (work/c08-fix-<rule>.diff).  Until they are merged into known_findings.json / applied, `c08()` registers them
-# temporarily (see _with_proposed_known).  One class per (rule, non-recursing override of the generated table).
+# Failure classes that still exist on the (repaired) tree.  They are registered in /verif/known_findings.json by the main
+# engineer; this dict only documents them (the check relies on known_findings.json alone, nothing is registered here).
+# Cause: dependency deno_ast 0.46 scopes.rs -- the scope analysis is a Visit whose visit_param does not recurse, so
+# bindings declared inside a function in a parameter default of a `function` are unknown to every rule that consults
+# the scope.  (The defects of /repo found in round 1 -- missing recursion in nine overrides, the getter-return state
+# leak and panic, the parent-chain boundaries of no-setter-return / no-unsafe-finally -- were repaired by fix: commits.)
 PROPOSED_KNOWN = {
-    "C08.hidden:no-invalid-regexp:visit_call_expr": "no-invalid-regexp: visit_call_expr does not recurse; an invalid RegExp inside the arguments/callee of any call is not reported, e.g. f(new RegExp(\"[\"))",
-    "C08.hidden:no-invalid-regexp:visit_new_expr": "no-invalid-regexp: visit_new_expr does not recurse; an invalid RegExp inside the arguments of any `new` is not reported, e.g. new F(new RegExp(\"[\"))",
-    "C08.hidden:valid-typeof:visit_bin_expr": "valid-typeof: visit_bin_expr does not recurse; a typeof comparison that is an operand of another binary/logical expression is not reported, e.g. p && typeof foo === \"strnig\"",
-    "C08.hidden:single-var-declarator:visit_var_decl": "single-var-declarator: visit_var_decl does not recurse; a multi-declarator declaration inside the initialiser of another declaration is not reported",
-    "C08.hidden:no-empty-pattern:visit_object_pat": "no-empty-pattern: visit_object_pat (and visit_object_pat_prop beneath it) descend only into nested patterns; an empty pattern inside the default value of an object-pattern property is not reported",
-    "C08.hidden:no-empty-pattern:visit_array_pat": "no-empty-pattern: visit_array_pat descends only into nested patterns; an empty pattern inside an array-pattern default is not reported",
-    "C08.hidden:no-redeclare:visit_var_declarator": "no-redeclare: visit_var_declarator does not recurse; redeclarations inside a function in a variable initialiser are not reported",
-    "C08.hidden:no-redeclare:visit_param": "no-redeclare: visit_param does not recurse; redeclarations inside a function in a parameter default are not reported",
-    "C08.hidden:getter-return:visit_return_stmt": "getter-return: visit_return_stmt does not recurse; a getter without return inside the argument of a return statement is not reported",
-    "C08.hidden:require-yield:visit_yield_expr": "require-yield: visit_yield_expr does not recurse; a generator without yield inside the argument of a yield is not reported",
-    "C08.hidden:no-inferrable-types:visit_class_prop": "no-inferrable-types: visit_class_prop returns before recursing for readonly/optional properties; inferrable annotations inside their initialisers are not reported",
-    "C08.hidden:no-inferrable-types:visit_private_prop": "no-inferrable-types: visit_private_prop returns before recursing for readonly/optional properties",
-    # dependency (deno_ast 0.46 scopes.rs): the scope analysis is a Visit whose visit_param does not recurse, so bindings declared
-    # inside a function in a parameter default of a `function` are unknown to every rule that consults the scope
     "C08.hidden:no-class-assign:scope-analysis.visit_param": "deno_ast scope analysis (scopes.rs visit_param) does not descend into parameter defaults of `function`s: no-class-assign misses `function (p = () => { class A {} A = 0; }) {}`",
     "C08.hidden:no-const-assign:scope-analysis.visit_param": "deno_ast scope analysis (scopes.rs visit_param) does not descend into parameter defaults of `function`s: no-const-assign misses `function (p = () => { const c = 0; c = 1; }) {}`",
     "C08.hidden:no-ex-assign:scope-analysis.visit_param": "deno_ast scope analysis (scopes.rs visit_param) does not descend into parameter defaults of `function`s: no-ex-assign misses a catch parameter assignment there",
     "C08.hidden:no-func-assign:scope-analysis.visit_param": "deno_ast scope analysis (scopes.rs visit_param) does not descend into parameter defaults of `function`s: no-func-assign misses `function (p = () => { function f() {} f = 0; }) {}`",
-    "C08.moved:getter-return:under-getter-body-after-return": "getter-return: visit_getter_or_function saves has_return but does not reset it, so a getter nested in a getter after an earlier `return` is reported with the other message (\"Expected 'a' to always return a value\" instead of \"Expected to return a value in 'a'\")",
-    # rules that look UP the parent chain for an enclosing construct and forget function-like boundaries: the context's own
-    # `return <value>` inside an object getter / method nested in a setter / finally block is reported
-    "C08.created:no-setter-return:object-setter-body/object-getter-body": "no-setter-return: inside_setter stops only at FnDecl/FnExpr/ArrowExpr; `return 1` of a getter (GetterProp) nested in a setter is reported as a setter return: ({ set s(v) { ({ get g() { return 1; } }); } })",
-    "C08.created:no-setter-return:object-setter-body/getter-return-argument": "no-setter-return: same (getter nested in a setter)",
-    "C08.created:no-setter-return:object-setter-body/getter-body-after-return": "no-setter-return: same (getter nested in a setter)",
-    "C08.created:no-setter-return:object-setter-body/object-method-body-returning": "no-setter-return: same for an object method (MethodProp/Function are not boundaries): ({ set s(v) { ({ m() { return 1; } }); } })",
-    "C08.created:no-unsafe-finally:finally-block/object-getter-body": "no-unsafe-finally: stmt_inside_finally stops only at Function/ArrowExpr; `return` of an object getter (GetterProp has no Function node) nested in a finally block is reported: try {} finally { ({ get g() { return 1; } }); }",
-    "C08.created:no-unsafe-finally:finally-block/getter-return-argument": "no-unsafe-finally: same (object getter nested in a finally block)",
-    "C08.created:no-unsafe-finally:finally-block/getter-body-after-return": "no-unsafe-finally: same (object getter nested in a finally block)",
-    "C08.created:no-fallthrough:switch-case-test": "no-fallthrough: a switch inside a function in the TEST of a case has no control-flow metadata (the analysis does not visit case tests), so its `break`s are not seen and a fallthrough is reported: switch (w) { case (() => { switch(foo) { case 0: a(); break; case 1: b(); } }): g(); }",
-    # the control-flow analysis (src/control_flow/mod.rs visit_switch_case) never visits the TEST of a switch case, so a getter
-    # there has no metadata and getter-return unwraps None
-    "C08.panic:getter-return:src/rules/getter_return.rs:133": "getter-return panics (unwrap of missing control-flow metadata) for a getter inside the test expression of a switch case: `switch (w) { case ({ get a() {} }): }` -- the control-flow analysis does not visit case tests",
 }
 
 
@@ -403,28 +378,6 @@ def attribute(rule, chain, single_status, nonrec):
     if culprits:
         return "under-" + culprits[0], culprits[0]
     return "under-" + chain[-1], chain[-1]
-
-
-def _with_proposed_known():
-    """Temporarily register PROPOSED_KNOWN (classes not yet merged into known_findings.json) as known findings of
-    C08 for this process; entries already present in the file win.  Also written to work/c08-proposed-known.json."""
-    with open(os.path.join(lib.WORK, "c08-proposed-known.json"), "w") as f:
-        json.dump({"findings": [{"property": "C08", "status": "known", "match": {"class": c}, "text": t} for c, t in sorted(PROPOSED_KNOWN.items())]}, f, indent=1)
-    if os.environ.get("C08_NO_PROPOSED_KNOWN"):
-        return
-    orig = lib.known_findings
-    if getattr(orig, "_c08_overlay", False):
-        return
-
-    def overlay(prop):
-        found = orig(prop)
-        if prop != "C08":
-            return found
-        have = {e["match"]["class"] for e in found}
-        return found + [{"property": "C08", "status": "known", "match": {"class": c}, "text": t + " [proposed, not yet in known_findings.json]"}
-                        for c, t in sorted(PROPOSED_KNOWN.items()) if c not in have]
-    overlay._c08_overlay = True
-    lib.known_findings = overlay
 
 
 def run_lint(cases):
@@ -700,12 +653,6 @@ def coq_context_free_rules():
     return sorted(re.findall(r'"([^"]+)"', m.group(1))) if m else None
 
 
-def coq_known_non_recursing():
-    src = lib.strip_comments(open(os.path.join(lib.COQ, "Traverse", "TableFacts.v")).read())
-    m = re.search(r"Definition\s+known_non_recursing\b.*?\[(.*?)\]\s*\.", src, flags=re.S)
-    return sorted(set(re.findall(r'\("([^"]+)",\s*"([^"]+)"\)', m.group(1)))) if m else []
-
-
 @register("C08")
 def c08(ctx):
     ctx.assumptions += [
@@ -715,7 +662,6 @@ def c08(ctx):
         "the order in which one rule pushes its diagnostics (pre- vs post-order) is not modelled: the pipeline sorts by position afterwards (C02/C03)",
         "HandlerTraverse: the number and order of handler calls is not observable through the public API; validated are the model's observable consequences (no `assert!(!stop_traverse)` panic on any generated program with all rules on one shared Context; Handler based rules report nested constructs exactly once at shifted positions) and, textually on every run, the shape of Traverse::traverse / TraverseFlow and the absence of stop_traverse in any on_exit_node",
     ]
-    _with_proposed_known()
     # ---------------------------------------------------------------- (a) translator
     try:
         table = gen_visit_table.generate()
@@ -736,10 +682,8 @@ def c08(ctx):
     cf = set(tested)
     unknown_cf = [(r["rule"], r["visitor"], r["method"], r["reason"]) for r in table["visit_table"] if r["rule"] in cf and r["cls"] == "unknown"]
     nonrec_cf = sorted({(r["rule"], r["method"]) for r in table["visit_table"] if r["rule"] in cf and r["cls"] == "none"})
-    known_nr = coq_known_non_recursing()
-    stale = [k for k in known_nr if k not in nonrec_cf]
-    if stale:
-        ctx.notes.append("known_non_recursing entries of Traverse/TableFacts.v that no longer occur in the generated table (repaired? remove them and the matching PROPOSED_KNOWN / known_findings classes): %s" % stale)
+    for rule, method in nonrec_cf:
+        ctx.notes.append("non-recursing override of a context-free rule in the generated table (breaks C08_context_free_rules_recurse): %s %s" % (rule, method))
     # ---------------------------------------------------------------- (c) nesting differential
     r = explore(ctx, table, ctx.tier, ctx.seed)
     for bp in r["bad_pairs"]:
@@ -758,7 +702,7 @@ def c08(ctx):
     # is a disagreement between the generated table and the implementation
     observed = {tuple(c.split(":")[1:3]) for c in by_cls if c.startswith("C08.hidden:")}
     unexplained = sorted(c for c in by_cls if c.startswith("C08.hidden:") and ":under-" in c)
-    unobserved = [k for k in nonrec_cf if k not in observed and k != ("no-empty-pattern", "visit_object_pat_prop")]
+    unobserved = [k for k in nonrec_cf if k not in observed]
     ctx.correspondence("generated visit table vs implementation: hidden reports <-> non-recursing overrides", len(nonrec_cf) + len(by_cls), len(observed),
                        [{"unexplained_hidden_class": c, "example": by_cls[c][0][0]} for c in unexplained],
                        "every `hidden` failure is attributed to a non-recursing override (of the rule or of an analysis it consults) that lies on the spine of a context "
@@ -788,7 +732,7 @@ def c08(ctx):
         "non_recursing_overrides_of_context_free_rules": nonrec_cf,
         "unknown_overrides_of_context_free_rules": unknown_cf,
         "stoppers": [(h["rule"], h["handler"], h["stops"]) for h in table["handler_table"] if h["stops"]],
-        "proposed_known": PROPOSED_KNOWN,
+        "known_classes_documented": PROPOSED_KNOWN,
     }
     # ---------------------------------------------------------------- HandlerTraverse: observable consequences
     rng = random.Random(ctx.seed + 88)
